@@ -710,3 +710,42 @@ v("c03-order-rows-flags-inverted", "C03", PM,
   "True if ci in set(op.reverse) else False for ci in op.order_by", "False if ci in set(op.reverse) else True for ci in op.order_by")
 v("c03-step-wrong-node-name", "C03", PM,
   "        if op.node_name != \"OrderRowsNode\":", "        if op.node_name == \"ExtendNode\":")
+
+# ---------------------------------------------------------------- round-3 rules
+v("c06-bare-limit-skips-ordering", "C06", VR,
+  "        if (\n            self.is_trivial_when_intermediate_()\n            and (columns is not None)\n            and (len(columns) > 0)\n        ):",
+  "        if self.is_trivial_when_intermediate_():")
+v("c17-compose-probe-decorated", "C17", "cdata.py",
+  "        inp = s1.example_input(value_suffix=\"\", record_key_suffix=\"\")", "        inp = s1.example_input()")
+v("c17-compose-shortcut-from-outer-specs", "C17", "cdata.py",
+  "        strict = self.strict and other.strict\n        if inp.shape[0] < 2:",
+  "        strict = self.strict and other.strict\n        if s1.columns_produced == s2.columns_needed:\n            return RecordMap(blocks_in=s1.blocks_in, blocks_out=s2.blocks_out, strict=strict)\n        if inp.shape[0] < 2:")
+v("c10-walk-early-return", "C10", VR,
+  "        cu_list = self.columns_used_from_sources(crec.copy())\n",
+  "        if len(crec) < 1:\n            return\n        cu_list = self.columns_used_from_sources(crec.copy())\n")
+v("c10-twin-leaf-early-return", "C10", VR,
+  "        cu_list = self.columns_used_from_sources(crec.copy())\n",
+  "        if len(self.sources) < 1:\n            return\n        cu_list = self.columns_used_from_sources(crec.copy())\n", expect="silent")
+v("c07-join-sources-filtered", "C07", VR,
+  "        new_sources = [s.replace_leaves(replacement_map) for s in self.sources]\n        return new_sources[0].natural_join(",
+  "        new_sources = [s.replace_leaves(replacement_map) if len(s.get_tables()) > 0 else s for s in self.sources]\n        return new_sources[0].natural_join(")
+v("c07-twin-sources-skipped-on-empty-map", "C07", VR,
+  "        new_sources = [s.replace_leaves(replacement_map) for s in self.sources]\n        return new_sources[0].natural_join(",
+  "        new_sources = [s.replace_leaves(replacement_map) if len(replacement_map) > 0 else s for s in self.sources]\n        return new_sources[0].natural_join(", expect="silent")
+v("c04-cte-definition-without-columns", "C04", "near_sql.py",
+  "                        NearSQLContainer(\n                            near_sql=stub,\n                            force_sql=self.force_sql,\n                            columns=self.columns,\n                        ),",
+  "                        NearSQLContainer(\n                            near_sql=stub,\n                            force_sql=self.force_sql,\n                        ),")
+v("c22-type-set-exact-class", "C22", "data_schema.py",
+  "            if not np.any([isinstance(observed_value, ti) for ti in expected_type]):", "            if type(observed_value) not in expected_type:")
+v("c22-twin-any-builtin", "C22", "data_schema.py",
+  "            if not np.any([isinstance(observed_value, ti) for ti in expected_type]):", "            if not any(isinstance(observed_value, ti) for ti in expected_type):", expect="silent")
+v("c22-single-type-exact-class", "C22", "data_schema.py",
+  "            if not isinstance(observed_value, expected_type):", "            if type(observed_value) is not expected_type:")
+v("c20-db-auto-key-without-table-probe", "C20", "db_space.py",
+  "            while (key in self.description_map.keys()) or self.db_handle.db_model.table_exists(\n                self.db_handle.conn, key\n            ):\n                self.n_tmp = self.n_tmp + 1\n                key = f\"da_temp_{self.n_tmp}\"\n        assert isinstance(key, str)\n        assert isinstance(allow_overwrite, bool)\n        if not allow_overwrite:",
+  "            while key in self.description_map.keys():\n                self.n_tmp = self.n_tmp + 1\n                key = f\"da_temp_{self.n_tmp}\"\n        assert isinstance(key, str)\n        assert isinstance(allow_overwrite, bool)\n        if not allow_overwrite:")
+v("c19-select-rows-returns-lookup", "C19", PB,
+  "        res = self._eval_value_source(op.sources[0], data_map=data_map)\n        if res.shape[0] < 1:\n            return res\n        selection = op.expr.act_on(res, expr_walker=self)",
+  "        res = data_map[op.sources[0].table_name] if op.sources[0].node_name == \"TableDescription\" else self._eval_value_source(op.sources[0], data_map=data_map)\n        if res.shape[0] < 1:\n            return res\n        selection = op.expr.act_on(res, expr_walker=self)")
+v("c05-sqlite-round-two-args", "C05", "SQLite.py",
+  "    \"remainder\": _sqlite_remainder_expr,\n", "    \"remainder\": _sqlite_remainder_expr,\n    \"around\": lambda dbmodel, expression: \"ROUND(\" + dbmodel.expr_to_sql(expression.args[0]) + \", \" + dbmodel.expr_to_sql(expression.args[1]) + \")\",\n")
